@@ -196,16 +196,18 @@ def spectrum_cases(rng, n, ctx, nmax):
 def pencil_cases(rng, n, ctx):
     cases = []
     for i in range(n):
-        K = int(rng.integers(1, 4))
-        T = int(rng.integers(4 * K + 4, 4 * K + 14))
-        E = np.cumsum(rng.uniform(0.2, 0.4, size=K))
+        K = int(rng.integers(1, 6))
+        T = int(rng.integers(max(8, 2 * K), 25))
+        E = np.cumsum(rng.uniform(0.25, 0.5, size=K))
         a = rng.uniform(0.5, 2.0, size=K)
         vals = [float(np.sum(a * np.exp(-E * t))) for t in range(T)]
         data = [mk(rng, v, rel=1e-7) for v in vals]
-        p = int(rng.integers(max(K, T // 3), max(K + 1, 2 * T // 3)))
+        # pencil parameter: the default, both admissible extremes (p = k, N - p = k) and anything between
+        mode = ['def', 'lo', 'hi', 'mid'][i % 4]
+        p = {'def': None, 'lo': K, 'hi': T - K, 'mid': int(rng.integers(K, T - K + 1))}[mode]
         r = _call(lambda: pe.mpm.matrix_pencil_method(data, k=K, p=p))
         res = {'k': 'exc', 't': type(r).__name__} if isinstance(r, Exception) else {'k': 'ok', 'E': [ratx(abs(float(o.value))) for o in r]}
-        cases.append({'id': 'mpm-%04d-K%d-T%d-p%d' % (i, K, T, p), 'ev': 'pencil', 'E': [rat(float(e)) for e in E], 'res': res})
+        cases.append({'id': 'mpm-%04d-K%d-T%d-p%s' % (i, K, T, p), 'ev': 'pencil', 'E': [rat(float(e)) for e in E], 'res': res})
         ctx.nontrivial.add(('mpm', K, T, p))
     return cases
 
@@ -215,5 +217,5 @@ def run(ctx):
     q = ctx.quick
     cases = gevp_cases(rng, 60 if q else 700, ctx, 4 if q else 5)
     cases += spectrum_cases(rng, 20 if q else 250, ctx, 4 if q else 5)
-    cases += pencil_cases(rng, 15 if q else 150, ctx)
+    cases += pencil_cases(rng, 24 if q else 400, ctx)
     ctx.validate('GevpTrace', cases, timeout=3000)
